@@ -81,9 +81,10 @@ impl Connection {
             path_total_recvd: self.path.total_recvd,
             has_prev_path: self.prev_path.is_some(),
             pto: self.pto(SpaceId::Data),
-            prev_path_pto: self.prev_path.as_ref().map(|(_, path)| {
-                path.rtt.pto_base() + self.ack_frequency.max_ack_delay_for_pto()
-            }),
+            prev_path_pto: self
+                .prev_path
+                .as_ref()
+                .map(|(_, path)| path.rtt.pto_base() + self.ack_frequency.max_ack_delay_for_pto()),
             timers: super::timer::Timer::VALUES.map(|t| self.timers.get(t)),
         }
     }
